@@ -39,6 +39,10 @@ def gen(d, tier):
         codes = [OK, DATA_OK, DATA_NEXT, NEXT, ERR] + ([HOLD] if d.below(3) == 0 else []) + ([S.HEX_OK, S.HEX_ERR] if k in "rt" else [])
         c0["scripts"]["0" + k] = [S.mk_step(d.pick(codes), d.below(3) if k in "rt" else 0, d.pick([b"tag", b"x"])) for _ in range(d.below(3))]
     c1 = S.mk_cmd(b"#E", "r" if d.below(2) else "", [S.mk_var(INT, 1, RO, b"\x07")], scripts={"1r": [S.mk_step(d.pick([DATA_OK, DATA_NEXT, OK, S.HEX_OK, S.HEX_ERR])) for _ in range(d.below(4))]})
+    if d.unlikely(1, 4):
+        c1["only_test"] = 1
+    if d.unlikely(1, 6):
+        c1["disable"] = 1
     inp = b""
     for _ in range(d.rng(0, 3)):
         inp += d.pick([b"AT+A?", b"AT+A=3", b"AT+A", b"AT+A=?", b"AT", b"ATX", b"AT+A=300"]) + (b"\r\n" if d.below(3) == 0 else b"\n")
